@@ -81,6 +81,17 @@ class InjectedStop(StopIteration):
         self.tag = tag
 
 
+class InjectedOSError(FileNotFoundError):
+    """An OSError-family error raised by a run (a model that cannot find its input file)."""
+
+    def __init__(self, tag=None):
+        super().__init__(tag)
+        self.tag = tag
+
+    def __reduce__(self):
+        return (InjectedOSError, (self.tag,))
+
+
 class InjectedModelComplete(core.ModelCompleteError):
     """The library's own error type raised INSIDE a run (a system that strictly steps a finished sub-model): an error like any other."""
 
@@ -93,7 +104,7 @@ class InjectedModelComplete(core.ModelCompleteError):
 
 
 FAULT_CLASSES = {c.__name__: c for c in (InjectedFault, InjectedKeyError, InjectedLookupError, InjectedAttributeError, InjectedStop,
-                                         InjectedModelComplete)}
+                                         InjectedModelComplete, InjectedOSError)}
 
 
 class ExecuteBypassed(AssertionError):
@@ -224,6 +235,27 @@ class SModel(core.Model):
         self.rep = COUNTS.get(k, 0)
         COUNTS[k] = self.rep + 1
         self.systems.add_system(_Stopper('stopper', self))
+
+
+class _Tiny(core.Model):
+    def __init__(self, q=0):
+        super().__init__()
+        self.complete()
+
+
+def _failing_score(model):
+    raise InjectedFault('inner search fails')
+
+
+def table_score_nested(model):
+    """A score function that first tries a small search of its own (sequential), which FAILS; it catches the error and scores the model
+    it was given as usual."""
+    import ECAgent.Batching as _batching
+    try:
+        _batching.grid_search(_Tiny, {'q': [1, 2, 3]}, _failing_score, processes=1, repetitions=3, max_timesteps=5)
+    except InjectedFault:
+        pass
+    return table_score(model)
 
 
 def table_score(model):
